@@ -45,6 +45,10 @@ class Facts:
         self.consts = {x['path']: x['val'] for x in self.other_items if 'val' in x}
         CONST_VALUES.update(self.consts)
         for f in self.fns.values():
+            if f.hir:
+                f.hir = model_std_hir(f.hir, self)
+                f.x['hir'] = f.hir
+        for f in self.fns.values():
             m2 = model_std_calls(f.body.mir)
             if m2 is not None:
                 f.x['mir'] = m2
@@ -1848,4 +1852,30 @@ def model_std_calls(mir):
     out = dict(mir)
     out['blocks'] = blocks
     out['locals'] = locals_
+    return out
+
+
+def model_std_hir(n, facts):
+    """`cond.then(|| e)` as `if cond { Some(e) } else { None }` (HIR): the closure takes no argument and is called at most once,
+    right here; its body lives in the enclosing function's id space."""
+    if isinstance(n, list):
+        return [model_std_hir(x, facts) for x in n]
+    if not isinstance(n, dict):
+        return n
+    out = {k: (model_std_hir(v, facts) if isinstance(v, (dict, list)) else v) for k, v in n.items()}
+    if out.get('k') == 'mcall' and out.get('name') in ('then', 'then_some') and re.search(r'bool>?::then(_some)?$', out.get('path') or '') and len(out.get('args', [])) == 1:
+        arg = out['args'][0]
+        body = None
+        if out['name'] == 'then' and isinstance(arg, dict) and arg.get('k') == 'closure':
+            g = facts.fns.get(arg.get('def'))
+            if g is not None and g.hir and not g.hir.get('params'):
+                body = model_std_hir(g.hir['value'], facts)
+        elif out['name'] == 'then_some':
+            return out      # the argument is evaluated eagerly: NOT the same as the if-expression
+        if body is not None:
+            ty = out.get('ty')
+            some = {'k': 'call', 'f': {'k': 'path', 'res': 'def', 'path': 'std::prelude::v1::Some', 'local': False}, 'args': [body], 'ty': ty, 'line': out.get('line')}
+            none = {'k': 'path', 'res': 'def', 'path': 'std::prelude::v1::None', 'local': False, 'ty': ty}
+            return {'k': 'if', 'cond': out['recv'], 'then': {'k': 'block', 'stmts': [], 'tail': some}, 'else': {'k': 'block', 'stmts': [], 'tail': none},
+                    'ty': ty, 'line': out.get('line'), 'modelled': 'bool::then'}
     return out
